@@ -332,10 +332,11 @@ class Session:
         self.server = None
 
 
-def run_session(root, packets, budget_for=None):
+def run_session(root, packets, budget_for=None, si_class=None, si_kwargs=None):
     """Feed INIT + `packets` to a real SFTPServer over LocalFS(root); run the real
     start_subsystem loop until the queue is empty (EOF).  budget_for(i) -> read-call budget of
-    packet i (index in `packets`) or None."""
+    packet i (index in `packets`) or None.  si_class / si_kwargs: a LocalFS subclass (and extra
+    constructor keywords) to serve instead of plain LocalFS."""
     allp = [INIT_PACKET] + list(packets)
     holder = {}
 
@@ -345,7 +346,7 @@ def run_session(root, packets, budget_for=None):
         si.read_budget = budget_for(i - 1) if (budget_for is not None and i > 0) else None
 
     chan = RawChan(allp, on_packet)
-    srv = SFTPServer(chan, "sftp", None, LocalFS, root=root)
+    srv = SFTPServer(chan, "sftp", None, si_class or LocalFS, root=root, **(si_kwargs or {}))
     holder["srv"] = srv
     ses = Session()
     ses.server = srv
@@ -518,9 +519,36 @@ def _dress(sock, name, on_recv_ready=None, point_after_send=False):
     return sock
 
 
-def sched_pair(on_recv_ready=None):
-    """-> (client_sock, server_sock) : VSocks dressed up as channels."""
+def bound_sends(sock, cap, why="sock.send-window"):
+    """Flow control for the direction sock -> peer: a send blocks (a *scheduler* block, so that
+    'everybody waits for somebody else' is detected as a deadlock) while the peer has `cap` or more
+    bytes it has not consumed yet, i.e. until the receiver has read what was sent before - the
+    coupling a channel window gives.  What is modelled: the *dependency* "this send cannot complete
+    before the peer has drained earlier data".  Not modelled: partial sends (a send that is admitted
+    delivers all its bytes, so the buffer can exceed `cap` by one packet).  cap=None: unbounded."""
+    if cap is None:
+        return sock
+    pipe = sock.out
+    dst = pipe.dst
+    plain_push = pipe.push
+
+    def push(item):
+        s = S.CUR
+        if item is not vsocket.EOF_MARK and s is not None and not s.aborting \
+                and len(dst.rbuf) >= cap and not dst.closed:
+            s.block(lambda: len(dst.rbuf) < cap or dst.closed or sock.closed, None, why=why)
+        plain_push(item)
+    pipe.push = push
+    return sock
+
+
+def sched_pair(on_recv_ready=None, window=None):
+    """-> (client_sock, server_sock) : VSocks dressed up as channels.
+    window=(c2s, s2c): byte bounds of the two directions (see bound_sends); default unbounded."""
     a, b = vsocket.pair("c", "s")
+    if window is not None:
+        bound_sends(a, window[0], "request-send-window")
+        bound_sends(b, window[1], "response-send-window")
     return _dress(a, "vc", on_recv_ready, point_after_send=True), _dress(b, "vs")
 
 
